@@ -26,6 +26,7 @@ def handleLine (line : String) : String :=
       | "dechdr" => handleDecHdr args
       | "hdrparse" => handleHdrParse args
       | "apiparse" => handleApiParse args
+      | "wfault" => handleWfault args
       | "unmarshal" => handleUnmarshal args
       | "build" => handleBuild args
       | "roundtrip" => handleRoundtrip args
